@@ -182,6 +182,11 @@ def run(ctx):
     # are replayed on the real station; every published message is applied by the real detector logic under the logical clock at which it
     # was sent; the station's own view of each registration (tracked / used) and the detector's session map after every step must be the
     # specification's - whose invariant DetectorOutlivesStation is evaluated on every state of the validated trace.
+    rlife = ctx.tlc(sdir, "MC_Detector.tla", "MC_Detector_life.cfg", timeout=300)
+    ctx.require_design_ok(rlife, "Detector with packets keeping sessions alive, crash / restart and shutdown")
+    rcw = ctx.tlc(sdir, "MC_Detector.tla", "MC_Detector_clearifftracking.cfg", timeout=300, count=False)
+    if rcw["inv"] != "ClearEmpties":
+        raise vlib.InfraError("the instance that only clears when its own table is non-empty should violate ClearEmpties, got %s" % rcw["inv"])
     rd = ctx.tlc(sdir, "MC_Detector.tla", "MC_Detector_duprestart.cfg", timeout=300, count=False)
     if rd["inv"] != "DetectorOutlivesStation":
         raise vlib.InfraError("the instance where a duplicate restarts the station's clock should violate DetectorOutlivesStation, got %s" % rd["inv"])
@@ -197,7 +202,10 @@ def run(ctx):
                 fo.write(line)
     hout = os.path.join(ctx.scratch, "life_out.ndjson")
     resh = ctx.go_test(PKG, FILES, "lib", "^TestVerifDetectorLifetime$", env={"VERIF_IN": hin, "VERIF_OUT": hout}, timeout=900)
-    hrows = ctx.read_results(hout)
+    try:
+        hrows = ctx.read_results(hout)
+    except ValueError:
+        raise vlib.InfraError("lifetime driver died:\n" + resh["out"][-3000:])
     if not any(x.get("kind") == "summary" for x in hrows):
         raise vlib.InfraError("lifetime driver did not finish:\n" + resh["out"][-3000:])
     hists = [x for x in hrows if x.get("kind") == "history"]
@@ -205,7 +213,7 @@ def run(ctx):
         raise vlib.InfraError("too few lifetime histories (%d)" % len(hists))
     canon_regs = None
     big = []
-    ndup = ntick = 0
+    ndup = ntick = npk = ncrash = nclear = 0
     for h in hists:
         evs = h["events"]
         ri = {r["id"]: r for r in evs[0]["regs"]}
@@ -222,6 +230,12 @@ def run(ctx):
                 kinds.append(e)
             elif e["a"] == "Tick":
                 lines.append("@%d" % e["clock"])
+                kinds.append(e)
+            elif e["a"] == "Packets":
+                lines.append("@%d !" % e["clock"])
+                kinds.append(e)
+            elif e["a"] == "PublishCount" and e["op"] == "Clear" and e["n"] == 0:
+                lines.append("@%d" % e["clock"])          # nothing was said: look at the detector all the same
                 kinds.append(e)
         s2dh = os.path.join(rdir, "life.hex")
         open(s2dh, "w").write("".join(l + "\n" for l in lines))
@@ -248,6 +262,8 @@ def run(ctx):
                 am = abstract_msg(pb_decode(bytes.fromhex(e["hex"])))
                 if am.get("tag"):
                     am["tag"]["phantom"] = ph.get(am["tag"]["phantom"], am["tag"]["phantom"])
+                if e["op"] == "Clear":
+                    nclear += 1
                 big.append({"a": "Publish", "id": e["id"], "msg": am})
                 big.append(detstate(e["clock"], dd[di]))
                 di += 1
@@ -256,19 +272,34 @@ def run(ctx):
                 big.append({"a": "Tick", "d": e["d"]})
                 big.append(detstate(e["clock"], dd[di]))
                 di += 1
+            elif e["a"] == "Packets":
+                npk += 1
+                big.append({"a": "Packets"})
+                big.append(detstate(e["clock"], dd[di]))
+                di += 1
+            elif e["a"] == "Crash":
+                ncrash += 1
+                big.append({"a": "Crash"})
             elif e["a"] == "Dup":
                 ndup += 1
                 big.append({"a": "Dup", "id": e["id"]})
             elif e["a"] == "StState":
                 big.append({"a": "StState", "tracked": e["tracked"], "used": e["used"]})
             elif e["a"] == "PublishCount":
+                if e["op"] == "Clear" and e["n"] == 0:
+                    left = dd[di]["sessions"]
+                    di += 1
+                    ctx.violation("lifetime:no-clear-at-shutdown", "the station shut down gracefully without publishing the Clear request%s"
+                                  % ("; the real detector still forwards %d session(s) nobody knows about: %s" % (len(left), [x["tag"] for x in left]) if left
+                                     else ""), {"event": e, "detector_sessions": left, "history": [x for x in evs[1:] if x["a"] != "StState"][:20]})
+                    break       # the rest of this history is not the specification's any more
                 ctx.violation("lifetime:publish-count:%s" % e["op"], "the station published %d messages for one %s" % (e["n"], e["op"]), e)
     htrace = [{"a": "Regs", "regs": canon_regs}] + big
     okh, reachedh, totalh, trh = ctx.validate_traces(sdir, "Trace_Detector.tla", "Trace_Detector.cfg", [htrace], timeout=900, reset=False)
     ctx.log("H: %d lifetime histories (%d duplicate deliveries, %d time steps), %d events; accepted=%s reached=%d/%d"
             % (len(hists), ndup, ntick, len(htrace), okh, reachedh, totalh))
-    if ndup < 20 or ntick < 50:
-        raise vlib.InfraError("lifetime histories are vacuous (%d duplicates, %d time steps)" % (ndup, ntick))
+    if (ndup < 20 or ntick < 50 or npk < 10 or ncrash < 10 or nclear < 10) and not ctx.violations:
+        raise vlib.InfraError("lifetime histories are vacuous (%d duplicates, %d time steps, %d packet steps, %d crashes, %d shutdowns)" % (ndup, ntick, npk, ncrash, nclear))
     if not okh:
         ev = htrace[reachedh] if reachedh < len(htrace) else None
         prev = htrace[max(0, reachedh - 6):reachedh]
@@ -278,7 +309,7 @@ def run(ctx):
                 "DetState": "the real detector's session map is not the specification's"}.get((ev or {}).get("a"), "not a behaviour of Detector.tla")
         ctx.violation("lifetime:%s" % kind, "lifetime history: %s at event %d: %s (previous: %s)" % (what, reachedh, json.dumps(ev)[:300], json.dumps(prev)[:500]),
                       {"event": ev, "previous": prev})
-    ctx.stage("H", histories=len(hists), duplicate_deliveries=ndup, time_steps=ntick, events=len(htrace), accepted=okh,
+    ctx.stage("H", packet_steps=npk, crashes=ncrash, shutdowns=nclear, histories=len(hists), duplicate_deliveries=ndup, time_steps=ntick, events=len(htrace), accepted=okh,
               nonvacuity="DupMode=restart violates DetectorOutlivesStation")
     ctx.cov["traces_validated_against_impl"] = 1
     shapes = {(x["reg"]["transport"], x["reg"]["v6"], x["reg"]["registrant_class"], x["op"], x["reg"]["port"] != 443) for x in pubs if x["op"] != "Clear"}
